@@ -446,6 +446,24 @@ func Scenarios(tier string) []Scenario {
 			Docs:    []string{sb.String(), `{"b":2,"a":1}`, `{"d":4,"c":3,"e":5}`},
 			Threads: [][]Op{{call(0, 0), call(0, 1)}, {call(0, 2)}}})
 	}
+	// S9b: two arrays longer than 64 elements (and longer than anything evaluated before in the
+	// process) under a wildcard at the same time
+	arr := func(n int) string {
+		var b strings.Builder
+		b.WriteString("[")
+		for i := 0; i < n; i++ {
+			if i > 0 {
+				b.WriteString(",")
+			}
+			fmt.Fprintf(&b, "%d", i)
+		}
+		b.WriteString("]")
+		return b.String()
+	}
+	for _, path := range []string{`$[*]`, `$[0:]`, `$..*`, `$[?(@ > 1)]`} {
+		out = append(out, Scenario{Name: "S9b long arrays " + path, Fns: []FnSpec{{path, 0}}, Docs: []string{arr(70), arr(90)},
+			Threads: [][]Op{{call(0, 0)}, {call(0, 1)}}})
+	}
 	// S8: non-JSON leaves of Go types the process has not seen before, every kind of step applied to them
 	for _, path := range []string{`$.a.b.c`, `$.a.b[0]`, `$.a.b.*`, `$.a.b[?(@.x)]`, `$.a.b..x`, `$.a.b['x','y']`, `$.a[?(@.b.f() == 1)]`} {
 		out = append(out, Scenario{Name: "S8 fresh Go types " + path, Fns: []FnSpec{{path, 1}}, Docs: []string{"", ""}, Fresh: true,
